@@ -23,9 +23,13 @@ def plan(tier, seed):
     return [{'n': 150, 'len': [60, 2000]} for _ in range(64)]
 
 
-def one(ctx, rng, cands, spec, want, k=1):
-    st = streams.build(rng, cands, k=k, n_each=tuple(spec['len']), tagged=(rng.random() < 0.3) if k == 1 else True,
-                       opts={'dead_mention': rng.choice([0.15, 0.5])})
+def one(ctx, rng, cands, spec, want, k=1, deep=False):
+    if deep:
+        # one id pushed through > 1024 incarnations (labels past 'amj'), everything on very few ids
+        st = streams.build(rng, cands, k=1, n_each=3600, tagged=False, opts={'hot': 1.0, 'reuse_bias': 1.0, 'prompt_delete': 1.0, 'first': 'get_registry'})
+    else:
+        st = streams.build(rng, cands, k=k, n_each=tuple(spec['len']), tagged=(rng.random() < 0.3) if k == 1 else True,
+                           opts={'dead_mention': rng.choice([0.15, 0.5]), 'tie_prefix': rng.choice([0, 0, 0, 6, 15, 40])})
     s, probs = objcheck.run_stream(ctx, st, want=want)
     ctx.ev(len(st['entries']))
     stats = {}
@@ -56,6 +60,8 @@ def runner_hash(x):
 def run(ctx, spec):
     env.setup()
     cands = wlxml.shipped(env.REPO)
+    if spec.get('shard') == 0:
+        one(ctx, ctx.rng, cands, spec, WANT, deep=True)
     for i in range(spec['n']):
         one(ctx, ctx.rng, cands, spec, WANT)
         if ctx.out_of_time():
